@@ -4,6 +4,7 @@ import random, sys, json
 from .. import common as C
 
 PID = 'C15'
+SHARDABLE = False      # exhaustive enumerations, cheap: one process
 PROP_MODULE = 'J1939.Props.C15'
 UNITS = ['MessageId.ofFields', 'MessageId.ofCanId', 'MessageId.can_id', 'PGN.ofFields', 'PGN.value', 'PGN.is_pdu1_format',
          'PGN.is_pdu2_format', 'PGN.from_message_id', 'Name.ofValue', 'Name.ofBytes', 'Name.ofFields', 'Name.value', 'Name.bytes']
